@@ -17,12 +17,12 @@ RAW_SIZES = [2, 3, 160, 320, 1200, 1201, 1275]
 T0_POOL = [0, 1000, 16777215 - 40, 0x7fffffff - 90000, 47721858, 0xffffffff]   # the last one is lowered so that the stream does not wrap
 
 
-def write_cfg(combo, mode, max_pub, kinds, dts, max_ver=3, gop=1):
+def write_cfg(combo, mode, max_pub, kinds, dts, max_ver=3, gop=1, inv="AllOk EndComplete"):
     v, a = COMBOS[combo]
     lines = ["SPECIFICATION Spec", "CONSTANTS", '  VCodec = "%s"' % v, '  ACodec = "%s"' % a, "  MaxPub = %d" % max_pub,
              "  MaxVer = %d" % max_ver, "  VKinds <- %s" % (kinds if v != "none" else "NoKinds"), "  DtPool <- %s" % dts,
-             "  AscPool = {1, 2, 3}", "  ProbeMax = 16", "  GopNum = %d" % gop, "INVARIANTS AllOk EndComplete"]
-    if mode == "bfs":
+             "  AscPool = {1, 2, 3}", "  ProbeMax = 16", "  GopNum = %d" % gop, "INVARIANTS " + inv]
+    if mode in ("bfs", "wit"):
         lines.append("VIEW View")
     else:
         lines.append("ACTION_CONSTRAINT EmitA")
@@ -81,6 +81,8 @@ def concretise(ctx, combo, acts, sc_id, big_budget):
         steps.append(st)
         msgs.append(st)
     steps.append({"name": "End"})
+    # the RTSP subscriber of the Group joins at a random point (before the first message: DESCRIBE waits for the SDP)
+    steps.insert(rng.randrange(1, len(steps)), {"name": "JoinRtsp"})
     # sizes
     for s in msgs:
         m = s["m"]
@@ -152,6 +154,7 @@ def directed(ctx, sc0):
             for j in range(3):
                 steps.append({"name": "Pub", "m": {"k": "a", "ver": 0, "key": False, "cts": 0, "n": asz[(i + j) % len(asz)], "nals": []}, "ts": t + 21 * j})
             steps.append({"name": "Join", "c": "t2"})
+            steps.insert(1 + (i * 5) % len(steps), {"name": "JoinRtsp"})
             steps.append({"name": "Pub", "m": {"k": "v", "ver": 0, "key": False, "cts": 80, "n": 0,
                                                "nals": [{"t": "slice", "v": 0, "n": n}, {"t": "slice", "v": 0, "n": NAL_SIZES[i % 9]}]}, "ts": t + 40})
             steps.append({"name": "Pub", "m": {"k": "a", "ver": 0, "key": False, "cts": 0, "n": asz[(i + 5) % len(asz)], "nals": []}, "ts": t + 300})
@@ -181,6 +184,7 @@ def directed(ctx, sc0):
                 steps.append({"name": "Pub", "m": {"k": "a", "ver": 0, "key": False, "cts": 0, "n": 100 + i, "nals": []}, "ts": t + 10})
             if i == 1:
                 steps.append({"name": "Join", "c": "t2"})
+                steps.append({"name": "JoinRtsp"})
             t += 40
         for i in range(14 if a == "none" else 0):
             steps.append({"name": "Pub", "m": vm(i == 5, [{"t": "idr" if i == 5 else "slice", "v": 0, "n": 50 + i}]), "ts": t})
@@ -212,8 +216,8 @@ def run(ctx):
         bfs = [("avc_aac", 5, "AvcCore", "Dt2"), ("hevc_opus", 5, "HevcCore", "Dt2")]
         nsim, depth, maxpub = 26, 14, 9
     else:
-        bfs = [("avc_aac", 6, "AvcCore", "Dt3"), ("hevc_aac", 6, "HevcCore", "Dt2"), ("avc_opus", 6, "AvcCore", "Dt3"),
-               ("hevc_opus", 6, "HevcCore", "Dt2"), ("none_aac", 9, "NoKinds", "Dt5"), ("avc_none", 6, "AvcAll", "Dt2")]
+        bfs = [("avc_aac", 6, "AvcCore", "Dt2"), ("hevc_aac", 6, "HevcCore", "Dt2"), ("avc_opus", 5, "AvcAll", "Dt2"),
+               ("hevc_opus", 5, "HevcAll", "Dt2"), ("none_aac", 8, "NoKinds", "Dt5"), ("avc_none", 5, "AvcAll", "Dt3")]
         nsim, depth, maxpub = 1900, 16, 10
 
     def do_bfs(x):
@@ -231,6 +235,12 @@ def run(ctx):
             E.require_design_ok(ctx, res, "MC_RemuxOut %s" % combo)
             ctx.log("design %s maxpub=%d: %d distinct states, reference remuxer satisfies the acceptor (AllOk, EndComplete)" %
                     (combo, mp, res["distinct"]))
+    # non-vacuity of the design check: a behaviour in which both HTTP-TS consumers are handed video and audio and
+    # the late joiner starts mid-stream must exist (TLC has to report the negated witness as violated)
+    wcfg = write_cfg("avc_aac", "wit", 5, "AvcCore", "Dt2", max_ver=2, inv="WitnessV")
+    wres = E.tlc(ctx, "MC_RemuxOut", wcfg, timeout=600, deadlock=False)
+    if wres.get("inv") != "WitnessV":
+        raise E.Infra("design check is vacuous: no behaviour reaches the witness state")
     scen = []
     big_budget = [12 if ctx.quick else 400]
     with cf.ThreadPoolExecutor(max_workers=max(2, E.NCPU // 2)) as ex:
@@ -255,10 +265,12 @@ def run(ctx):
     rows = E.read_ndjson(tp)
     nframes = sum(len(o["frames"]) for r in rows if r.get("ev") in ("Pub", "End") for o in r["out"].values())
     nhls = sum(len(r["hls"]["frames"]) for r in rows if r.get("ev") == "End")
-    nrtp = sum(len(r.get("rtp", [])) for r in rows if r.get("ev") == "Pub")
+    nrtp = sum(len(o["frames"]) for r in rows if r.get("ev") == "Pub" and "rtp" in r for o in r["rtp"].values())
+    nrg = sum(len(r["rtp"]["rg"]["frames"]) for r in rows if r.get("ev") == "Pub" and "rtp" in r)
     ctx.log("driver: %d scenarios, %d events; %d TS frames at HTTP-TS consumers, %d in HLS segments, %d RTP frames" %
             (len(scen), len(rows), nframes, nhls, nrtp))
-    if nframes == 0 or nhls == 0 or nrtp == 0:
+    ctx.log("        of which %d RTP frames through Group.feedRtpPacket -> rtsp.SubSession (interleaved)" % nrg)
+    if nframes == 0 or nhls == 0 or nrtp == 0 or nrg == 0:
         raise E.Infra("vacuous run: a consumer class received nothing")
     ctx.cov["traces_validated_against_impl"] = len(scen)
     ctx.cov["evaluations"] = nframes + nhls + nrtp
